@@ -529,7 +529,15 @@ func (o *objectGoReflect) equalValue(other *objectGoReflect) bool {
 		return false
 	}
 	if isContainer(k) {
-		return v1 == v2
+		if v1 == v2 {
+			return true
+		}
+		if k == reflect.Slice && v1.Type() == v2.Type() {
+			// copies of the same slice header (a non-addressable slice is copied on every access)
+			l := v1.Len()
+			return l > 0 && l == v2.Len() && v1.Pointer() == v2.Pointer()
+		}
+		return false
 	}
 	if v1.Type() != v2.Type() {
 		return false
